@@ -75,12 +75,22 @@ fn run_format(cfg: &Cfg, index: u64, stats: &mut Stats) {
         fail(stats, "output-does-not-end-with-exactly-one-newline", format!("output ends with {:?}", once.chars().rev().take(3).collect::<String>()), json!(null));
         return;
     }
-    if let Some(line) = once.lines().position(|l| l.ends_with(' ') || l.ends_with('\t')) {
-        // trailing whitespace inside a verbatim region or a comment is the author's; only flag lines of pure blanks
-        let l = once.lines().nth(line).unwrap_or("");
-        if l.trim().is_empty() {
-            fail(stats, "whitespace-only-line-with-blanks", format!("line {} of the output is {:?}", line + 1, l), json!(null));
-            return;
+    // a line the formatter itself left with blanks only (not part of the statement, but such a line is what a later pass
+    // would strip): ASCII blanks only, and not inside a comment or a string literal, where every character is the author's
+    {
+        let tokens = e2::scan::scan(&once);
+        let mut offset = 0usize;
+        for (number, l) in once.split('\n').enumerate() {
+            let (from, to) = (offset, offset + l.len());
+            offset = to + 1;
+            if l.is_empty() || !l.chars().all(|c| c == ' ' || c == '\t') {
+                continue;
+            }
+            let inside_token = tokens.iter().any(|t| t.start < from && to < t.end && (t.is_comment() || matches!(t.kind, e2::scan::Kind::Str)));
+            if !inside_token {
+                fail(stats, "whitespace-only-line-with-blanks", format!("line {} of the output is {:?}", number + 1, l), json!(null));
+                return;
+            }
         }
     }
     // (1) idempotence, twice
